@@ -30,6 +30,8 @@ def run(R):
     if not R.build():
         return
     R.lean(["C20", "C20Run"])
+    import hunted
+    hunted.run(R, "C20")
     quick = R.tier == "quick"
     rng = R.rng
     reqs, meta = [], {}
